@@ -1055,6 +1055,17 @@ func (t *Tr) expr(e ast.Expr, env Env, want Ty) (string, Ty) {
 	switch x := e.(type) {
 	case *ast.ParenExpr:
 		return t.expr(x.X, env, want)
+	case *ast.SliceExpr:
+		// `x[:len(x):len(x)]` (full slice expression that only drops the spare capacity): the same
+		// VALUE as x; byte strings are immutable values in the model, capacity is not modelled
+		if id, ok := x.X.(*ast.Ident); ok && x.Slice3 && x.Low == nil && isLenOf(x.High, id.Name) && isLenOf(x.Max, id.Name) {
+			a, at := t.expr(x.X, env, TNone)
+			if at == TBytes {
+				return a, TBytes
+			}
+		}
+		fail(x.Pos(), "slice expression other than x[:len(x):len(x)] on bytes")
+		return "", TNone
 	case *ast.Ident:
 		switch x.Name {
 		case "True", "true":
@@ -1141,6 +1152,17 @@ func (t *Tr) compositeLit(cl *ast.CompositeLit, env Env) (string, Ty) {
 	}
 	fail(cl.Pos(), "composite literal without Value")
 	return "", TNone
+}
+
+// isLenOf reports whether e is the call len(name).
+func isLenOf(e ast.Expr, name string) bool {
+	c, ok := e.(*ast.CallExpr)
+	if !ok || len(c.Args) != 1 {
+		return false
+	}
+	f, ok := c.Fun.(*ast.Ident)
+	a, ok2 := c.Args[0].(*ast.Ident)
+	return ok && ok2 && f.Name == "len" && a.Name == name
 }
 
 func isUntyped(e ast.Expr) bool {
